@@ -278,6 +278,35 @@ def verify_deepcopy_hook(ctx, res, c, h) -> None:
     new = None
     cls_names = {"%s.__class__" % sn, "type(%s)" % sn, c.name}
     status: Dict[str, Tuple[str, ast.AST]] = {}
+    # constructor form: `return C(self.f, self.g, ...)` -- decided only in the negative: a mutable field handed to a
+    # constructor that stores its argument by reference is shared between the copy and the original
+    if len(body) == 1 and isinstance(body[0], ast.Return) and isinstance(body[0].value, ast.Call) \
+            and txt(body[0].value.func) in cls_names and not body[0].value.keywords:
+        call = body[0].value
+        init = c.lookup("__init__")
+        cap = ctx.effects.summ[init.qual].cap if init is not None else {}
+        for i, a in enumerate(call.args):
+            if not (isinstance(a, ast.Attribute) and isinstance(a.value, ast.Name) and a.value.id == sn):
+                continue
+            f = a.attr
+            ty = frozenset()
+            for k in c.mro():
+                ty |= eng.fields.get((k.name, f), frozenset())
+            if _immutable_tags(ty):
+                continue
+            pname = init.params[i + 1] if init is not None and i + 1 < len(init.params) else (init.vararg if init is not None else None)
+            w = cap.get("P:%s" % pname) if pname else None
+            if w is not None:
+                res.ob("R20.4", h.where(a), "%s.__deepcopy__: field %s" % (c.name, f), False,
+                       "handed to the constructor, which keeps it by reference (%s: %s)" % w)
+                res.violation("R20.4", h, body[0], "%s.__deepcopy__ does not produce an independent copy: field `%s` (%s) is handed to the "
+                              "constructor, which keeps its argument by reference (%s: %s), so the copy refers to the SAME object as the "
+                              "original; a later in-place change of the original (move) shows through the copy, and every owning "
+                              "constructor that deep-copies its arguments inherits the leak" % (c.name, f, show_tags(ty), w[0], w[1]),
+                              construct="%s.__deepcopy__ field %s" % (c.name, f))
+                return
+        raise AnalysisError("%s: %s.__deepcopy__ rebuilds the object through its constructor; that the result equals the original "
+                            "field by field is not decided" % (where, c.name))
     returned = False
     for st in body:
         if isinstance(st, ast.Assign) and len(st.targets) == 1 and isinstance(st.targets[0], ast.Name):
